@@ -1542,11 +1542,10 @@ def commit(
                 ref=None,
                 config=commit_config,
             )
-            # Update HEAD to point to the new commit with reflog message
-            try:
-                old_head = r.refs[HEADREF]
-            except KeyError:
-                old_head = None
+            # Update HEAD to point to the new commit with reflog message. The
+            # swap is conditioned on the commit that was amended: reading the
+            # branch again here would silently drop a commit made meanwhile.
+            old_head = head_commit.id
 
             # Get the actual commit message from the created commit
             commit_obj = r[commit_sha]
@@ -1560,13 +1559,16 @@ def commit(
 
             # Pass committer explicitly: Repo._write_reflog would otherwise
             # resolve it via get_user_identity(), which reads os.environ.
-            r.refs.set_if_equals(
+            if not r.refs.set_if_equals(
                 HEADREF,
                 old_head,
                 commit_sha,
                 committer=committer,
                 message=reflog_message,
-            )
+            ):
+                from ..errors import CommitError
+
+                raise CommitError(f"{HEADREF!r} changed during commit")
             return commit_sha
         else:
             # TODO(jelmer): WorkTree.commit() hardcodes the "commit: <message>"
